@@ -52,7 +52,8 @@ def require_actions(r, names):
 
 _CLASSES = None
 
-STATUS = {'HTTPError': 422, 'HTTPStatus': 203, 'HTTPNotFound': 404, 'AppX': 404, 'StSub': 207, 'HTTPRouteNotFound': 404}
+STATUS = {'HTTPError': 422, 'HTTPStatus': 203, 'HTTPNotFound': 404, 'AppX': 404, 'StSub': 207, 'HTTPRouteNotFound': 404,
+          'HTTPMix': 422}
 OWN_VARY = ('HTTPNotFound', 'AppX', 'StSub')     # classes whose instances carry a Vary header of their own
 TAG_TYPE = 'application/x-verif-tag'
 SET_STATUS_BASE = 460          # Pipeline!SetStatus(h) = 460 + h
@@ -96,7 +97,25 @@ def classes():
             def __repr__(self):
                 raise ValueError('no repr for you')
 
-        _CLASSES = {'Exception': Exception, 'HTTPError': falcon.HTTPError, 'HTTPStatus': falcon.HTTPStatus,
+        # hierarchies with mixins (C04): a base that is in type(ex).__mro__ but not on the __base__ chain
+        class Retryable(Exception):       # the mixin
+            pass
+
+        class ServiceError(Exception):
+            pass
+
+        class Overloaded(ServiceError, Retryable):        # mixin second: __base__ chain Overloaded, ServiceError, Exception
+            pass
+
+        class MixFirst(Retryable, AppB):                  # mixin first: AppB, AppA are off the __base__ chain
+            pass
+
+        class HTTPMix(falcon.HTTPError, Retryable):       # an HTTP error carrying the mixin
+            pass
+
+        _CLASSES = {'Retryable': Retryable, 'ServiceError': ServiceError, 'Overloaded': Overloaded, 'MixFirst': MixFirst,
+                    'HTTPMix': HTTPMix}
+        _CLASSES = {**_CLASSES, 'Exception': Exception, 'HTTPError': falcon.HTTPError, 'HTTPStatus': falcon.HTTPStatus,
                     'HTTPNotFound': falcon.HTTPNotFound, 'AppA': AppA, 'AppB': AppB, 'AppC': AppC, 'AppD': AppD,
                     'AppX': AppX, 'StSub': StSub, 'HTTPRouteNotFound': falcon.HTTPRouteNotFound,
                     'BadStr': BadStr, 'NonStr': NonStr, 'BadRepr': BadRepr}
@@ -360,6 +379,46 @@ def hook_style(nb, na, variant):
             'mpat': hook_pattern(nb - cb, na - ca, variant >> 3), 'cpat': hook_pattern(cb, ca, variant >> 5)}
 
 
+def slot_style(nb, na, variant, slot):
+    """hook_style for a responder slot given by the specification (MC_PipelineSlot: method, suffix spelling,
+    number of class-level before / after hooks); the decorator stackings and inheritance stay picked by `variant`."""
+    v = variant >> 6
+    cb, ca = slot['cb'], slot['ca']
+    return {'inherit': bool(v & 1), 'suffix': ''.join(slot['sfx']) or False, 'method': slot['method'], 'cb': cb, 'ca': ca,
+            'mpat': hook_pattern(nb - cb, na - ca, variant >> 3), 'cpat': hook_pattern(cb, ca, variant >> 5)}
+
+
+MW_FORMS = ('single', 'list', 'tuple', 'generator', 'iter', 'map', 'dict_values')
+SLOT_METHODS = ('GET', 'POST', 'PUT', 'DELETE', 'PATCH')
+SLOT_SUFFIXES = ('', 'sfx', 'item_history', 'byId', 'v2', 'A_b_3', 'x_1_Y_z', '_lead', '9')
+
+
+def mw_container(comps, form):
+    """The components `comps` in the container form `form` of App(middleware=..) / add_middleware(..): an environment
+    dimension the specification is independent of (a bare component only stands for a group of one)."""
+    comps = list(comps)
+    if form == 'single' and len(comps) == 1:
+        return comps[0]
+    if form == 'tuple':
+        return tuple(comps)
+    if form == 'generator':
+        return (c for c in comps)
+    if form == 'iter':
+        return iter(comps)
+    if form == 'map':
+        return map(lambda c: c, comps)
+    if form == 'dict_values':
+        return {'k%d' % j: c for j, c in enumerate(comps)}.values()
+    return comps
+
+
+def mw_forms(seed, ngroups):
+    """(cors_enable, container form per registration group), drawn from `seed` (replayable from the case)."""
+    import random
+    r = random.Random(seed * 7919 + 11)
+    return r.random() < 0.5, [r.choice(MW_FORMS) for _ in range(ngroups)]
+
+
 def _resource(rec, nb, na, asgi, style):
     """A resource whose GET responder carries nb before hooks and na after hooks.  Documented stacking:
     before hooks run outermost decorator first, after hooks innermost first, and class-level hooks wrap
@@ -405,15 +464,22 @@ def _resource(rec, nb, na, asgi, style):
         else:
             fn = falcon.after(after(aj))(fn)
             aj += 1
-    name = 'on_get_sfx' if style['suffix'] else 'on_get'
+    # the responder slot (C03, MC_PipelineSlot!RespName): on_<method>[_<suffix>]; style['suffix'] may spell the suffix
+    sfx = style['suffix'] if isinstance(style['suffix'], str) else ('sfx' if style['suffix'] else None)
+    base = 'on_' + style.get('method', 'GET').lower()
+    name = base + '_' + sfx if sfx else base
     members = {name: fn}
-    if style['suffix']:
+    if sfx:
         async def other_async(self, req, resp):
-            rec.wrong.append('unsuffixed responder called')
+            rec.wrong.append('another responder than the routed slot was called')
 
         def other(self, req, resp):
-            rec.wrong.append('unsuffixed responder called')
-        members['on_get'] = other_async if asgi else other
+            rec.wrong.append('another responder than the routed slot was called')
+        members[base] = other_async if asgi else other
+        if 'method' in style:       # decoys next to the slot: a longer and a shorter spelling of the suffix
+            for decoy in (name + '_x', name[:-1]):
+                if decoy != base:
+                    members[decoy] = other_async if asgi else other
     if style['inherit']:
         cls = type('Res', (type('Base', (), members),), {})      # the responders are inherited, not redefined
     else:
@@ -427,7 +493,7 @@ def _resource(rec, nb, na, asgi, style):
         else:
             cls = falcon.after(after(aj))(cls)
             aj += 1
-    return cls(), ('sfx' if style['suffix'] else None)
+    return cls(), sfx
 
 
 DRAFT_ATTRS = ('text', 'data', 'media')
@@ -544,7 +610,25 @@ class Session:
         self.objs = {}
         comps = [_component(rec, j + 1, set(s), asgi, slot_styles(j + 1, variant)) for j, s in enumerate(cfg['shape'])]
         App = falcon.asgi.App if asgi else falcon.App
-        if variant & 2:
+        self.nreq = 0
+        self.mw_pending = []
+        if cfg.get('mwh'):
+            # C03 (MC_PipelineSlot): the stack is registered in groups - group 1 through the constructor, every
+            # further group by one add_middleware call before request `before`; container forms and cors_enable
+            # are rotated (mw_forms), the specification does not depend on them
+            cors, forms = mw_forms(cfg.get('mwseed', variant), len(cfg['mwh']))
+            self.mw_env = {'cors_enable': cors, 'forms': forms}
+            groups, at = [], 0
+            for g, form in zip(cfg['mwh'], forms):
+                groups.append((g['before'], form, comps[at:at + g['n']]))
+                at += g['n']
+            if at != len(comps):
+                raise RuntimeError('registration groups %r do not add up to the stack %r' % (cfg['mwh'], cfg['shape']))
+            _, form, first = groups[0]
+            first = (None if variant & 1 else []) if not first and form == 'single' else mw_container(first, form)
+            app = App(middleware=first, independent_middleware=cfg['indep'], cors_enable=cors)
+            self.mw_pending = groups[1:]
+        elif variant & 2:
             app = App(independent_middleware=cfg['indep'])
             for c in comps:
                 app.add_middleware(c)
@@ -564,7 +648,9 @@ class Session:
         self.routed = True
         cfg, rec, asgi, app = self.cfg, self.rec, self.asgi, self.app
         if cfg['target'] == 'routed':
-            res, sfx = _resource(rec, cfg['nb'], cfg['na'], asgi, hook_style(cfg['nb'], cfg['na'], self.variant))
+            style = (slot_style(cfg['nb'], cfg['na'], self.variant, cfg['slot']) if cfg.get('slot')
+                     else hook_style(cfg['nb'], cfg['na'], self.variant))
+            res, sfx = _resource(rec, cfg['nb'], cfg['na'], asgi, style)
             if sfx:
                 app.add_route('/t', res, suffix=sfx)
             else:
@@ -607,11 +693,16 @@ class Session:
 
     def request(self, plan, *, render_cls=None, lazy=None, accept=None, fields_rng=None, xml_safe=False, bad_cls=None):
         self._routes()
+        self.nreq += 1
+        while self.mw_pending and self.mw_pending[0][0] <= self.nreq:      # add_middleware calls due before this request
+            _, form, comps = self.mw_pending.pop(0)
+            self.app.add_middleware(mw_container(comps, form))
         rec = Recorder(plan, render_cls, lazy, fields_rng, attr_seed=self.variant, xml_safe=xml_safe)
         if bad_cls:
             rec.bad_cls = bad_cls
         object.__setattr__(self.rec, 'cur', rec)
-        req = Req('GET', '/t', headers=[('Accept', accept)] if accept is not None else [])
+        method = (self.cfg.get('slot') or {}).get('method', 'GET')
+        req = Req(method, '/t', headers=[('Accept', accept)] if accept is not None else [])
         if self.asgi:
             res = run_async(asgi_call_async(self.app, req))
         else:
@@ -733,7 +824,7 @@ def xml_expressible(s):
 # lifespan
 # ------------------------------------------------------------------------------------------------
 
-def run_lifespan(hs0, cycles, plan, *, with_request_method=0, add_via_list=False):
+def run_lifespan(hs0, cycles, plan, *, with_request_method=0, add_via_list=False, form_seed=None):
     """ONE real falcon.asgi.App taken through several lifespan cycles.
     hs0: lifespan methods (subsets of {'startup','shutdown'}) of the initial components;
     cycles: [{'adds': [shape..] components added before this cycle, 'shutdown': the server sends lifespan.shutdown}];
@@ -770,11 +861,30 @@ def run_lifespan(hs0, cycles, plan, *, with_request_method=0, add_via_list=False
             d['process_request'] = process_request
         return type('L%d' % j, (), d)()
 
-    app = falcon.asgi.App(middleware=[component(s) for s in hs0])
+    if form_seed is None:
+        app = falcon.asgi.App(middleware=[component(s) for s in hs0])
+    else:
+        # C03: the container form of the constructor argument and of every add_middleware call, and cors_enable,
+        # rotate under the history (Lifespan!AddMiddlewareSeq receives the sequence; the form is environment)
+        import random
+        frng = random.Random(form_seed)
+        app = falcon.asgi.App(middleware=mw_container([component(s) for s in hs0], frng.choice(MW_FORMS)),
+                              cors_enable=frng.random() < 0.5)
     out = []
     for cy in cycles:
         comps = [component(s) for s in cy['adds']]
-        if comps and add_via_list:
+        if comps and form_seed is not None:
+            # the calls the specification made (cy['groups']: sizes), else a random split into calls
+            sizes = list(cy.get('groups') or [])
+            left = len(comps) - sum(sizes)
+            while left > 0:
+                sizes.append(frng.randint(1, left))
+                left -= sizes[-1]
+            at = 0
+            for n in sizes:
+                app.add_middleware(mw_container(comps[at:at + n], frng.choice(MW_FORMS)))
+                at += n
+        elif comps and add_via_list:
             app.add_middleware(comps)
         else:
             for c in comps:
@@ -824,7 +934,11 @@ def lifespan_history(b):
     ncyc = len(b['sd'])
     cycles, exp = [], []
     for k in range(1, ncyc + 1):
-        cycles.append({'adds': [sorted(a['shape']) for a in b['adds'] if a['after'] == k - 1], 'shutdown': b['sd'][k - 1]})
+        mine = [a for a in b['adds'] if a['after'] == k - 1]
+        cy = {'adds': [sorted(a['shape']) for a in mine], 'shutdown': b['sd'][k - 1]}
+        if mine and 'call' in mine[0]:       # sizes of the add_middleware calls the specification made (AddMiddlewareSeq)
+            cy['groups'] = [sum(1 for a in mine if a['call'] == c) for c in sorted({a['call'] for a in mine})]
+        cycles.append(cy)
         exp.append(([{'site': c['site'], 'c': c['c'], 'act': c['act']} for c in b['calls'] if c['cyc'] == k],
                     [e['ev'] for e in b['sent'] if e['cyc'] == k]))
     return hs[:n0], cycles, [c['act'] for c in b['calls']], exp
@@ -865,10 +979,28 @@ def accept_text(acc):
         s = '%s/%s' % (r['t'], r['s'])
         if ('+json' in s) != (r['sfx'] == 'json') or ('+xml' in s) != (r['sfx'] == 'xml'):
             raise RuntimeError('range %r: suffix flag and text disagree' % (r,))
+        s = spell_range(s, r.get('cs', 'lower'))
         if r['q'] != 10:
             s += ';q=%s' % ('0' if r['q'] == 0 else '0.%d' % r['q'])
         parts.append(s)
     return ', '.join(parts)
+
+
+def spell_range(s, cs):
+    """The media range text `s` (lower case) in the spelling `cs` of ErrorRender.tla (Spellings)."""
+    if cs == 'lower':
+        return s
+    if cs == 'upper':
+        return s.upper()
+    if cs == 'sfx':         # only the structured-syntax suffix (or, without one, the subtype) in upper case
+        head, plus, tail = s.rpartition('+')
+        if plus:
+            return head + plus + tail.upper()
+        t, _, sub = s.partition('/')
+        return t + '/' + sub.upper()
+    if cs == 'mixed':
+        return ''.join(ch.upper() if (i == 0 or not s[i - 1].isalnum()) else ch for i, ch in enumerate(s))
+    raise RuntimeError('unknown spelling %r' % (cs,))
 
 
 RETRY_DATE = (2031, 5, 17, 8, 9, 10)        # the datetime passed as retry_after when the constructor gets a date
@@ -1088,6 +1220,10 @@ def expected_from_behaviour(b):
     """TLC session -> (assembly, all custom registrations, [(nregs, plan, render, calls, final) per request])."""
     cfg = {'shape': [sorted(s) for s in b['shape']], 'indep': b['indep'], 'target': b['target'], 'nb': b['nb'],
            'na': b['na']}
+    if 'slot' in b:         # MC_PipelineSlot exports: the responder slot and the registration groups of the stack
+        cfg['slot'] = {'method': b['slot']['method'], 'sfx': ''.join(b['slot']['sfx']), 'cb': b['slot']['cb'],
+                       'ca': b['slot']['ca']}
+        cfg['mwh'] = b['mwh']
     return cfg, b['reg'][3:], [(q['nregs'],) + expected_request(q, b['reg']) for q in b['reqs']]
 
 
@@ -1282,7 +1418,7 @@ def nontrivial_c04(b):
     return False
 
 
-def random_trace(rng, *, asgi, ncomp, maxhooks, regs, classes, maxfaults=5, render_p=0.2, rich=False, nreqs=1):
+def random_trace(rng, *, asgi, ncomp, maxhooks, regs, classes, maxfaults=5, render_p=0.2, rich=False, nreqs=1, slots=False):
     """Leg B: a seeded random session on one real application object.  `regs` is the registration history;
     with nreqs > 1 it is cut at random points and the later parts are registered between the requests.
     Returns (trace for PipelineTrace, case, [(rec, res, got) per request])."""
@@ -1292,6 +1428,16 @@ def random_trace(rng, *, asgi, ncomp, maxhooks, regs, classes, maxfaults=5, rend
            'nb': rng.randint(0, maxhooks) if target == 'routed' else 0,
            'na': rng.randint(0, maxhooks) if target == 'routed' else 0}
     variant = rng.randrange(4096)
+    if slots:       # C03: a random responder slot and a random registration of the stack (all before the first request)
+        if target == 'routed':
+            cfg['slot'] = {'method': rng.choice(SLOT_METHODS), 'sfx': rng.choice(SLOT_SUFFIXES),
+                           'cb': rng.randint(0, cfg['nb']), 'ca': rng.randint(0, cfg['na'])}
+        sizes, left = [], ncomp
+        while left:
+            sizes.append(rng.randint(0 if not sizes else 1, left))
+            left -= sizes[-1]
+        cfg['mwh'] = [{'n': n, 'before': 0 if j == 0 else 1} for j, n in enumerate(sizes)]
+        cfg['mwseed'] = rng.randrange(1 << 30)
     regs = [dict(r, obj=r.get('obj', 4 + j)) for j, r in enumerate(regs)]
     accept = rng.choice(ACCEPTS) if rich else None
     xml = bool(accept and accept.split(';')[0].endswith('xml'))
@@ -1299,7 +1445,7 @@ def random_trace(rng, *, asgi, ncomp, maxhooks, regs, classes, maxfaults=5, rend
     if nreqs > 1 and rng.random() < 0.5:
         cuts[0] = 0                     # the first request often sees only the defaults
     sess = Session(cfg, asgi=asgi, variant=variant)
-    trace = dict(cfg, reg=regs, reqs=[])
+    trace = dict({k: v for k, v in cfg.items() if k not in ('slot', 'mwh', 'mwseed')}, reg=regs, reqs=[])
     case = {'leg': 'B', 'iface': 'asgi' if asgi else 'wsgi', 'variant': variant, 'cfg': cfg, 'reg': regs, 'accept': accept,
             'fields_seed': None, 'reqs': []}
     runs = []
@@ -1336,7 +1482,7 @@ def random_trace(rng, *, asgi, ncomp, maxhooks, regs, classes, maxfaults=5, rend
 C3REGS = [{'cls': 'AppB', 'beh': 'set'}, {'cls': 'AppC', 'beh': 'other'}, {'cls': 'AppD', 'beh': 'http'},
           {'cls': 'StSub', 'beh': 'noop'}]
 ALL_CLASSES = ['Exception', 'HTTPError', 'HTTPStatus', 'HTTPNotFound', 'AppA', 'AppB', 'AppC', 'AppD', 'AppX', 'StSub',
-               'BadStr', 'NonStr', 'BadRepr']
+               'BadStr', 'NonStr', 'BadRepr', 'Retryable', 'ServiceError', 'Overloaded', 'MixFirst', 'HTTPMix']
 
 
 def judge_traces(ctx, own, env, items, seen_other):
